@@ -953,16 +953,28 @@ func (e *Engine) makeRange(x Value) Value {
 		if c.obj != nil {
 			it.entries = append(it.entries, c.obj.entries...)
 			if e.mapOrderNondet && len(it.entries) > 1 {
-				// nondeterministic iteration order: choose a permutation
 				n := len(it.entries)
-				perm := make([]mapEntry, 0, n)
-				rest := append([]mapEntry{}, it.entries...)
-				for len(rest) > 0 {
-					k := e.choose(len(rest))
-					perm = append(perm, rest[k])
-					rest = append(rest[:k:k], rest[k+1:]...)
+				if e.mapOrderMode >= 0 {
+					// one schedule for the whole run: insertion order, reversed, or rotated by one
+					switch e.mapOrderMode {
+					case 1:
+						for i, j := 0, n-1; i < j; i, j = i+1, j-1 {
+							it.entries[i], it.entries[j] = it.entries[j], it.entries[i]
+						}
+					case 2:
+						it.entries = append(it.entries[1:], it.entries[0])
+					}
+				} else {
+					// every range statement picks its own permutation
+					perm := make([]mapEntry, 0, n)
+					rest := append([]mapEntry{}, it.entries...)
+					for len(rest) > 0 {
+						k := e.choose(len(rest))
+						perm = append(perm, rest[k])
+						rest = append(rest[:k:k], rest[k+1:]...)
+					}
+					it.entries = perm
 				}
-				it.entries = perm
 			}
 		}
 		return it
